@@ -329,7 +329,46 @@ def replies():
     return progs
 
 
-GROUPS = {"replies": replies, "legality": legality, "shapes": shapes, "maxima": maxima, "inbound": inbound, "downgrade": downgrade}
+def window():
+    """C06 / C03 / C07: the in-flight window at its edge.  The broker announces a Receive Maximum above, at and below the
+    client's own eight exchanges (or none); the application issues more QoS 2 (QoS 1, mixed) publishes than the window
+    holds before it polls once, lets everything complete, and after a resumed reconnect -- with the identifier counter
+    placed on the identifier of the publish that went over the edge -- publishes again."""
+    progs = []
+    n = 0
+    for rm in (None, 20, 65535, 9, 8, 3):
+        for kinds in ((2,) * 10, (1,) * 10, (2, 1) * 5):
+            n += 1
+            steps = []
+            w = min(rm or 8, 8)
+            if n % 2:
+                # all at once: the stored-packet table is the first limit met
+                for i, q in enumerate(kinds):
+                    steps.append({"e": "publish", "qos": q, "topic": b("w/%d" % i), "payload": b("p%d" % i), "props": []})
+            else:
+                # a window full of exchanges taken exactly to their PUBREC / PUBACK (one poll each) while the broker
+                # holds its PUBCOMPs back, then two more publishes and the polls that would read their PUBRECs
+                for i, q in enumerate(kinds[:w]):
+                    steps.append({"e": "publish", "qos": q, "topic": b("w/%d" % i), "payload": b("p%d" % i), "props": []})
+                steps.append({"e": "hold", "on": True})
+                steps += [{"e": "poll"}] * w
+                for i, q in enumerate(kinds[w:w + 2]):
+                    steps.append({"e": "publish", "qos": q, "topic": b("w/%d" % (w + i)), "payload": b("q%d" % i), "props": []})
+                steps += [{"e": "poll"}] * 3
+                steps.append({"e": "hold", "on": False})
+            steps += [{"e": "poll"}] * 40
+            ck = [] if rm is None else [{"id": 0x21, "n": rm, "s": [], "t": []}]
+            edge = min(rm or 8, 8) + 1
+            steps.append({"e": "reconnect", "connack": ck, "setid": edge})
+            for i in range(3):
+                steps.append({"e": "publish", "qos": 1 + i % 2, "topic": b("w2/%d" % i), "payload": b("x"), "props": []})
+            steps += [{"e": "poll"}] * 12
+            progs.append({"cfg": {"rx": 128, "tx": 1152, "ka": 0, "sei": 300, "client_id": b("win%d" % n), "name": "window-%d" % n},
+                          "steps": steps, "connack": ck})
+    return progs
+
+
+GROUPS = {"window": window, "replies": replies, "legality": legality, "shapes": shapes, "maxima": maxima, "inbound": inbound, "downgrade": downgrade}
 
 if __name__ == "__main__":
     import sys
